@@ -387,6 +387,9 @@ func runMergeCases(r *gen.Rand, n int, kind string) {
 		if len(s.Inputs) == 0 {
 			continue
 		}
+		if tooManyTimeouts() {
+			return
+		}
 		var all []MRow
 		for _, in := range s.Inputs {
 			all = append(all, in...)
